@@ -59,7 +59,10 @@ def configs(tier, seed):
     for pc in (["shampoo", {}], ["soap", {"method": "qr"}]):
         out.append(seq.cfg_with(seed=seed, precond=pc, graft=["adam", 0.5, 1e-1], groups=[{"params": [0, 2], "over": {}}, {"params": [1], "over": {"lr": 0.125, "wd": 0.25, "momentum": 0.25}}], **rich))
     # dtypes
-    out.append(seq.cfg_with(seed=seed, pdtype="bf16", prec_dtype="f32", precond=["soap", {"method": "qr"}], graft=["adam", 0.5, 1e-1], **rich))
+    # (gradient scale 0.3: with dyadic gradients the float32 factor matrices would be exactly representable in bfloat16 and a
+    # checkpoint path that rounds state through the parameter dtype would go unnoticed)
+    out.append(seq.cfg_with(seed=seed, pdtype="bf16", prec_dtype="f32", precond=["soap", {"method": "qr"}], graft=["adam", 0.5, 1e-1], gscale=0.3, **rich))
+    out.append(seq.cfg_with(seed=seed, pdtype="f32", prec_dtype="f64", precond=["shampoo", {}], graft=["rmsprop", 0.5, 1e-1], gscale=0.3, **rich))
     out.append(seq.cfg_with(seed=seed, pdtype="f64", prec_dtype="f64", precond=["shampoo", {}], graft=["sgd"], bias_corr=False, **rich))
     # inverse root override / exponent multiplier / larger frequency
     out.append(seq.cfg_with(seed=seed, precond=["shampoo", {"exp_mult": 0.5}], inv_root_override=[1, 2, 3], graft=None, betas=[0.25, 0.5], lr=0.25, freq=3, start=3))
